@@ -34,7 +34,7 @@ MIRRORS = [('enspara/tpt/tpt.py', None), ('enspara/tpt/core.py', ['_I_m_Q', 'com
 
 TOL = 1e-9
 TIGHT = 1e-12
-REL_CAP = 1e-2     # a comparison whose rounding allowance exceeds 1 % of its scale is skipped and counted
+REL_CAP = 2e-2     # a comparison whose rounding allowance exceeds 1 % of its scale is skipped and counted
 CONTAINERS = base.CONTAINERS
 
 
@@ -54,7 +54,7 @@ def oracle_committors(Tf, src, snk):
     return q
 
 
-REVERSIBLE_KINDS = ('rev', 'meta-rev', 'sticky', 'tiny-rev', 'pendant', 'rev-dyadic', 'banded')
+REVERSIBLE_KINDS = ('rev', 'meta-rev', 'sticky', 'tiny-rev', 'pendant', 'rev-dyadic', 'banded', 'wells', 'lazy-wells')
 
 
 def requests(case):
@@ -86,30 +86,36 @@ def check_case(ctx, case, resp):
         pi_exact = np.array([float(x) for x in exact_pi_reversible(T)])
     q = oracle_committors(Tf, src, snk)
     # rounding allowances, propagated from what binary64 can deliver:
-    #  * committors |dq| <= 2e-15/g, g = min(spectral gap, smallest exit probability 1 - T_ii)  (observed <= 1.6e-16/g)
-    #  * computed populations: relative 1e-13/gap (observed <= 3.2e-15/gap) and 1e-12/pi_min (LAPACK eig is absolute-accurate)
+    #  * committors |dq| <= 20 eps cond_inf(I - T_ff) of the absorbing system actually solved (so a slowly mixing chain whose
+    #    every well holds a source or a sink is NOT penalised)
+    #  * computed populations (only where populations=None): relative 5e-14/gap and 1e-12/pi_min (LAPACK eig is absolute-accurate)
     #  * f = pi T (1-q_i) q_j  =>  |df| <= 2 dq max(pi_i T_ij) + dpi f.
     # All flux comparisons are RELATIVE to the flux scale fs.  Ordinary chains: allowance ~ 1e-9 fs.
     fac, gap = base.cond_factor(Tf)
     stick = base.stickiness(Tf)
-    dq = 2e-15 / min(gap, stick)
-    dpi = max(1e-13 / gap, 1e-12 / base.pi_min(Tf))   # observed <= 1.5e-14/pi_min
     minp = 1e-14 / stick                      # float chain vs exact rational chain (model comparisons only)
+    if inter:
+        condA = float(np.linalg.cond(np.eye(len(inter)) - Tf[np.ix_(inter, inter)], np.inf))
+    else:
+        condA = 1.0
+    dq = 4.4e-15 * condA                       # 20 eps cond(I - T_ff); observed <= 1.5 eps cond on every family
+    dpi = max(5e-14 / gap, 1e-12 / base.pi_min(Tf))   # observed <= 5.6e-15/gap and <= 1.5e-14/pi_min
     if fac > 1:
         ctx.tag('slow-mixing gap<1e-%d' % int(np.floor(-np.log10(gap))))
     if stick < 1e-3:
         ctx.tag('sticky-state exit<1e-%d' % int(np.floor(-np.log10(stick))))
 
-    def refs(pi):
+    def refs(pi, computed=True):
+        dpi_ = dpi if computed else 0.0
         f_ref = (pi * (1 - q))[:, None] * Tf * q[None, :]
         np.fill_diagonal(f_ref, 0.0)
         fs = float(np.max(f_ref))
         piT = pi[:, None] * Tf
         np.fill_diagonal(piT, 0.0)
-        ftol = TOL * fs + 2 * dq * float(np.max(piT)) + dpi * fs
+        ftol = TOL * fs + 2 * dq * float(np.max(piT)) + dpi_ * fs
         dens = pi * q * (1 - q)
         N = float(dens.sum())
-        ptol = (2 * dq / N + dpi + TOL) if N > 0 else np.inf
+        ptol = (2 * (dq + minp) / N + dpi_ + TOL) if N > 0 else np.inf     # minp: q may leave [0,1] by that much
         return f_ref, fs, ftol, dens, N, ptol
 
     f_ref0, fs0, ftol0, _, N0, ptol0 = refs(pi_exact)
@@ -134,7 +140,7 @@ def check_case(ctx, case, resp):
             X = base.to_container(Tf, cont)
             a_src, a_snk = base.as_arg(src, case['argform']), base.as_arg(snk, case.get('argform_sinks', case['argform']))
             p, pi = base.pops_arg(pi_exact, pops)
-            f_ref, fs, ftol, dens_ref, N_ref, ptol = refs(pi)
+            f_ref, fs, ftol, dens_ref, N_ref, ptol = refs(pi, computed=(pops == 'none'))
             f32 = pops == 'given-f32' or cont == 'float32'
             if cont == 'float32' and pops == 'none':
                 # a float32 tprob makes the library's own eq_probs single precision (relative 1e-7 on the populations)
@@ -183,7 +189,7 @@ def check_case(ctx, case, resp):
                 return fail('reactive flux not zero on the diagonal', failing='flux-diagonal', **where)
             if not flux_ok:
                 ctx.skip('flux comparisons relative to the flux scale: rounding allowance > 1 %% of the scale (gap %.0e)'
-                         % 10 ** np.floor(np.log10(min(gap, stick))))
+                         % 10 ** np.floor(np.log10(min(gap, stick, 1.0 / condA))))
             elif np.max(np.abs(f - f_ref)) > ftol:
                 return fail('reactive flux differs from pi_i q-_i T_ij q+_j by %.3g (flux scale %.3g, allowance %.3g)'
                             % (np.max(np.abs(f - f_ref)), fs, ftol),
@@ -207,9 +213,9 @@ def check_case(ctx, case, resp):
                     return fail('net flux not conserved at an intermediate state (residual %.3g, net flux scale %.3g)'
                                 % (np.max(np.abs(inflow[inter] - outflow[inter])), gs),
                                 failing='conservation', got=g.tolist()[:12], **where)
-                if flux_ok and np.max(np.abs(g[:, src])) > ftol:
+                if flux_ok and np.max(np.abs(g[:, src])) > ftol + minp * fs:
                     return fail('net flux flows into a source', failing='into-sources', got=g.tolist()[:12], **where)
-                if flux_ok and np.max(np.abs(g[snk, :])) > ftol:
+                if flux_ok and np.max(np.abs(g[snk, :])) > ftol + minp * fs:   # q may exceed 1 by minp (rows not exactly stochastic)
                     return fail('net flux flows out of a sink', failing='out-of-sinks', got=g.tolist()[:12], **where)
                 if abs(outflow[src].sum() - inflow[snk].sum()) > n * ctol:
                     return fail('total outflow from sources %.12g != total inflow to sinks %.12g'
@@ -346,6 +352,28 @@ def make_cases(ctx):
             A, B = base.random_set_pair(rng, len(T), need_free=1)
             add('meta-rev', T, A, B, list(CONTAINERS) if r % 4 == 0 else one_container(), ['none', 'given'],
                 'metastable')
+    # 'numerically doubly stochastic' chains whose stationary vector is NOT uniform: internally symmetric wells joined by
+    # asymmetric links r 2^-k : 2^-k (k = 33..38), and lazy versions I + 2^-j (T - I), j = 30..38, of moderately linked
+    # ones.  Column sums are within 1e-10 of 1; pi is known in closed form (ratio r between wells).
+    for r in range(ctx.n(24, 400)):
+        if r % 3 == 2:
+            kind = 'lazy-wells'
+            T, pi, well = base.gen_wells(rng, int(rng.integers(3, 6)), lazy=int(rng.integers(30, 39)))
+        else:
+            kind = 'wells'
+            T, pi, well = base.gen_wells(rng, 33 + int(rng.integers(0, 6)))
+        n, nw = len(T), max(well) + 1
+        if r % 4 != 3:          # every well holds a source or a sink: the committor system is well conditioned
+            reps = [int(rng.choice([i for i in range(n) if well[i] == w])) for w in range(nw)]
+            A, B = reps[:1], reps[-1:]
+            if nw == 3:
+                (A if rng.random() < 0.5 else B).append(reps[1])
+            if rng.random() < 0.5:
+                A, B = B, A
+        else:
+            A, B = base.random_set_pair(rng, n, need_free=1)
+        add(kind, T, A, B, list(CONTAINERS) if r % 4 == 0 else one_container() + dense_var(kind), ['none', 'given'],
+            'numerically-doubly-stochastic')
     # sources + sinks = all states but one (set sizes beyond 3)
     for r in range(ctx.n(20, 300)):
         n = int(rng.integers(3, 10))
